@@ -43,6 +43,7 @@ Section G.
     g_derive_valid : forall h id seed s, k_derive K h id seed = Some s -> vk s;
     g_pub_valid : forall s, vk s -> vp (k_pub K s);
     g_dh_sym : forall a b, vk a -> vk b -> k_dh K (k_pub K a) b = k_dh K (k_pub K b) a;
+    g_dh_len : forall p s, vp p -> vk s -> length (k_dh K p s) = k_Npk K;
     g_deser_pk_valid : forall b p, k_deser_pk K b = Some p -> vp p;
     g_deser_sk_valid : forall b s, length b = k_Nsk K -> k_deser_sk K b = Some s -> vk s;
   }.
